@@ -503,7 +503,9 @@ func specWidthScale(f *Font) float64 {
 //@ loop 1 back-when [C19.widthmap.frame] forall nm string :: nm != name ==> has(widths, nm) == prev(has(widths, nm)) && widths[nm] == prev(widths[nm])
 
 // C08, hex armour writer over the ghost output tape: otape(k) is the k-th
-// byte accepted by the underlying writer, opos() the number accepted so far.
+// byte accepted by the observed writer obs() -- an arbitrary but fixed
+// io.Writer value, so every clause below holds for whichever writer one
+// chooses to observe -- and opos() the number it has accepted so far.
 // Every input byte is rendered as two lower-case hexadecimal digits, high
 // nibble first, in order; a line feed follows every 39 bytes (78 digits) and
 // the last, shorter line when the writer is closed; nothing else is written.
@@ -515,13 +517,13 @@ func specHexLower(x byte, j int) byte {
 }
 
 //@ func (*hexWriter).flush
-//@ ensures [C08.hex.flush] old(len(w.buf)) > 0 && result == nil ==> opos() == old(opos()) + old(len(w.buf)) + 1 && (forall j :: 0 <= j && j < old(len(w.buf)) ==> otape(old(opos()) + j) == old(w.buf[j])) && otape(opos() - 1) == 10 && len(w.buf) == 0
+//@ ensures [C08.hex.flush] w.w == obs() && old(len(w.buf)) > 0 && result == nil ==> opos() == old(opos()) + old(len(w.buf)) + 1 && (forall j :: 0 <= j && j < old(len(w.buf)) ==> otape(old(opos()) + j) == old(w.buf[j])) && otape(opos() - 1) == 10 && len(w.buf) == 0
 //@ ensures [C08.hex.flush.empty] old(len(w.buf)) == 0 ==> result == nil && opos() == old(opos()) && len(w.buf) == 0
 
 //@ func (*hexWriter).Write
 //@ loop 1 invariant [C08.hex.line] len(w.buf) < 78 && len(w.buf) % 2 == 0
 //@ loop 1 back-when [C08.hex.pending] len(w.buf) > 0 ==> len(w.buf) == prev(len(w.buf)) + 2 && w.buf[len(w.buf)-2] == specHexLower(c, 0) && w.buf[len(w.buf)-1] == specHexLower(c, 1) && opos() == prev(opos()) && (forall j :: 0 <= j && j < prev(len(w.buf)) ==> w.buf[j] == prev(w.buf[j]))
-//@ loop 1 back-when [C08.hex.flushed] len(w.buf) == 0 ==> prev(len(w.buf)) == 76 && opos() == prev(opos()) + 79 && (forall j :: 0 <= j && j < 76 ==> otape(prev(opos()) + j) == prev(w.buf[j])) && otape(prev(opos()) + 76) == specHexLower(c, 0) && otape(prev(opos()) + 77) == specHexLower(c, 1) && otape(prev(opos()) + 78) == 10
+//@ loop 1 back-when [C08.hex.flushed] w.w == obs() && len(w.buf) == 0 ==> prev(len(w.buf)) == 76 && opos() == prev(opos()) + 79 && (forall j :: 0 <= j && j < 76 ==> otape(prev(opos()) + j) == prev(w.buf[j])) && otape(prev(opos()) + 76) == specHexLower(c, 0) && otape(prev(opos()) + 77) == specHexLower(c, 1) && otape(prev(opos()) + 78) == 10
 
 // C08, eexec stream writer over the ghost output tape (Type 1 book 7.1): what
 // flush hands to the underlying writer is the eexec encryption of the
@@ -533,8 +535,9 @@ func specEEByte(r0 uint16, p []byte, k int) byte {
 }
 
 //@ func (*eexecWriter).flush
-//@ ensures [C08.eexec.tape] result == nil ==> opos() == old(opos()) + old(w.pos) && w.R == old(specEE(w.R, w.buf, w.pos)) && (forall k :: 0 <= k && k < old(w.pos) ==> otape(old(opos()) + k) == old(specEEByte(w.R, w.buf, k)))
+//@ ensures [C08.eexec.tape] w.w == obs() && result == nil ==> opos() == old(opos()) + old(w.pos) && (forall k :: 0 <= k && k < old(w.pos) ==> otape(old(opos()) + k) == old(specEEByte(w.R, w.buf, k)))
 //@ loop 1 invariant [C08.eexec.tape] opos() == old(opos()) && (forall k :: 0 <= k && k < i ==> w.buf[k] == old(specEEByte(w.R, w.buf, k)))
+//@ ensures [C08.eexec.key] result == nil ==> w.R == old(specEE(w.R, w.buf, w.pos))
 
 //@ func (*eexecWriter).Write
 //@ ensures [C08.eexec.small] old(w.pos) + len(p) < len(w.buf) && result1 == nil ==> w.pos == old(w.pos) + len(p) && w.R == old(w.R) && opos() == old(opos()) && (forall j :: 0 <= j && j < len(p) ==> w.buf[old(w.pos) + j] == old(p[j]))
@@ -568,3 +571,38 @@ func specEEHex(c byte) bool {
 //@ ensures [C13.peek.fault] !old(rfault()) && rfault() ==> result2 != nil
 //@ func (*peekReader).Read
 //@ ensures [C13.peekreader.fault] !old(rfault()) && rfault() ==> result1 != nil
+
+// C08, PFB framing.  An eexec writer whose sink is a standard-library leaf
+// writer (bytes.Buffer) other than the observed writer never reaches the
+// observed writer: the output tape stays as it is, for any number of Write
+// calls (stable clauses: what one call preserves, a template execution that
+// writes through it preserves as well).
+//@ define elsewhere(u) = u != obs() && leafwriter(u)
+//@ func (*eexecWriter).flush
+//@ ensures [C08.eexec.elsewhere] old(elsewhere(w.w)) ==> opos() == old(opos())
+//@ ensures [C08.eexec.sink] w.w == old(w.w)
+//@ loop 1 invariant [C08.eexec.sink] w.w == old(w.w)
+//@ func (*eexecWriter).Write
+//@ ensures stable [C08.eexec.elsewhere] old(elsewhere(w.w)) ==> opos() == old(opos())
+//@ ensures stable [C08.eexec.sink] w.w == old(w.w)
+//@ loop 1 invariant [C08.eexec.elsewhere] (old(elsewhere(w.w)) ==> opos() == old(opos())) && w.w == old(w.w)
+//@ func (*eexecWriter).Close
+//@ ensures [C08.eexec.elsewhere] old(elsewhere(w.w)) ==> opos() == old(opos())
+//@ func newEExecWriter
+//@ ensures [C08.eexec.sink] result1 == nil ==> result0.w == w
+
+// A PFB file is a sequence of segments: the marker 128, the segment type
+// (1 text, 2 binary), the length of the data as a little-endian 32 bit number,
+// the data; the marker 128 with type 3 ends the file.  Font.Write in PFB
+// format hands the observed writer exactly: a text segment, a binary segment,
+// a text segment and the end marker, each length field holding the number of
+// bytes that follow before the next header (output below 4 GiB).
+//@ define le32(p) = mathint(int(otape(p)) + 256*int(otape(p+1)) + 65536*int(otape(p+2)) + 16777216*int(otape(p+3)))
+//@ define seghdr(p, t) = otape(p) == 128 && otape(mathint(p+1)) == t
+//@ define segend(p) = mathint(p + 6 + le32(p+2))
+//@ define pfbCase(w, opt) = w == obs() && old(opt != nil && opt.Format == FormatPFB)
+//@ func (*Font).Write
+//@ before "buf.Reset()" 1 lemma [C08.pfb.seg1] pfbCase(w, opt) && opos() - old(opos()) < 4294967296 ==> seghdr(old(opos()), 1) && opos() == segend(old(opos()))
+//@ before "buf.Reset()" 2 lemma [C08.pfb.seg2] pfbCase(w, opt) && opos() - old(opos()) < 4294967296 ==> (forall p1 :: p1 == segend(old(opos())) ==> seghdr(p1, 2) && opos() == segend(p1))
+//@ before "_, err = w.Write(..." 7 lemma [C08.pfb.seg3] pfbCase(w, opt) && opos() - old(opos()) < 4294967296 ==> (forall p1, p2 :: p1 == segend(old(opos())) && p2 == segend(p1) ==> seghdr(p2, 1) && opos() == segend(p2))
+//@ ensures [C08.pfb.framing] pfbCase(w, opt) && result == nil && opos() - old(opos()) < 4294967296 ==> (forall p1, p2, p3 :: p1 == segend(old(opos())) && p2 == segend(p1) && p3 == segend(p2) ==> seghdr(old(opos()), 1) && seghdr(p1, 2) && seghdr(p2, 1) && seghdr(p3, 3) && opos() == mathint(p3 + 2))
